@@ -205,6 +205,52 @@ def name_step(line):
             r = "R " + ",".join(sorted(object.__getattribute__(c, "namespaces")))
             Blackboard.clear()
             return r
+        if t[0] in ("cacc", "cshare", "cremap"):
+            W = Access.WRITE
+
+            def res(f):
+                try:
+                    v = f()
+                except Exception as e:  # noqa: B902
+                    return err_kind(e)
+                if v is None:
+                    return "ok"
+                if v is True or v is False:
+                    return str(v)
+                return "val " + val_str(v)
+            try:
+                if t[0] == "cacc":
+                    Blackboard.clear()
+                    c = Client(name="x", namespace=d(t[1]))
+                    k = d(t[2])
+                    a = Blackboard.absolute_name(object.__getattribute__(c, "namespace"), k)
+                    out = [res(lambda: c.register_key(key=k, access=W)), res(lambda: setattr(c, k, 7)),
+                           res(lambda: getattr(c, k)), res(lambda: c.get(a)), res(lambda: Blackboard.get(a))]
+                    return "R " + "|".join(out)
+                if t[0] == "cshare":
+                    Blackboard.clear()
+                    ca, cb = Client(name="a", namespace=d(t[1])), Client(name="b", namespace=d(t[3]))
+                    ka, kb = d(t[2]), d(t[4])
+                    res(lambda: ca.register_key(key=ka, access=W))
+                    res(lambda: cb.register_key(key=kb, access=W))
+                    res(lambda: setattr(ca, ka, 1))
+                    res(lambda: setattr(cb, kb, 2))
+                    return "R " + res(lambda: getattr(ca, ka))
+                parts = []
+                for occupy_target in (True, False):
+                    Blackboard.clear()
+                    ca, cb = Client(name="a", namespace=d(t[1])), Client(name="b")
+                    ka, loc = d(t[2]), t[3]
+                    own = Blackboard.absolute_name(object.__getattribute__(ca, "namespace"), ka)
+                    res(lambda: ca.register_key(key=ka, access=W, remap_to=loc))
+                    res(lambda: cb.register_key(key=loc, access=W))
+                    res(lambda: cb.register_key(key=own, access=W))
+                    res(lambda: setattr(cb, loc if occupy_target else own, 1))
+                    r = res(lambda: ca.set(ka, 2, overwrite=False))
+                    parts.append(",".join([r, res(lambda: Blackboard.get(loc)), res(lambda: Blackboard.get(own))]))
+                return "R " + "|".join(parts)
+            finally:
+                Blackboard.clear()
     except KeyError:
         return "KeyError"
     return "bad-op"
